@@ -39,12 +39,14 @@ pub const T_SUB_BROTLI_BINCODE: u8 = 14;
 /// requestor/replier pipeline: decompress -> decode (bincode record)
 pub const T_REQ_GZIP_BINCODE: u8 = 15;
 pub const T_SUB_LZ4_BINCODE: u8 = 16;
-pub const N_TARGETS: u8 = 17;
+/// one `MessageCodec::decode` call; Ok(0) = needs more bytes, Ok(1 + n) = a frame of n payload bytes
+pub const T_FRAME_ONCE: u8 = 17;
+pub const N_TARGETS: u8 = 18;
 
 pub fn target_name(t: u8) -> &'static str {
     [
         "frame-decode", "unbatch", "string-codec", "bytes-codec", "bincode-record", "bincode-vec-string", "bincode-map", "gzip", "zlib", "zstd", "lz4", "brotli",
-        "subscriber-pipeline-plain", "subscriber-pipeline-zstd", "subscriber-pipeline-brotli-bincode", "requestor-pipeline-gzip-bincode", "subscriber-pipeline-lz4-bincode",
+        "subscriber-pipeline-plain", "subscriber-pipeline-zstd", "subscriber-pipeline-brotli-bincode", "requestor-pipeline-gzip-bincode", "subscriber-pipeline-lz4-bincode", "frame-decode-once",
     ][t as usize % N_TARGETS as usize]
 }
 pub fn is_decompressor_target(t: u8) -> bool {
@@ -83,6 +85,15 @@ pub fn run_target(t: u8, input: &[u8]) -> Result<u64, String> {
                 if src.len() == before {
                     return Err("decoder made no progress".into());
                 }
+            }
+        }
+        T_FRAME_ONCE => {
+            let mut codec = selium_protocol::MessageCodec;
+            let mut src = BytesMut::from(input);
+            match codec.decode(&mut src) {
+                Ok(None) => Ok(0),
+                Ok(Some(f)) => Ok(1 + f.get_length().unwrap_or(0)),
+                Err(e) => Err(format!("{e}")),
             }
         }
         T_BATCH => selium_protocol::utils::decode_message_batch(Bytes::copy_from_slice(input)).norm().map(|v| v.iter().map(|b| b.len() as u64 + 8).sum()),
